@@ -290,10 +290,16 @@ psParseUnknownPubKeyMem(psPool_t *pool,
     }
 
 # ifdef USE_RSA
-    rc = psRsaParseAsnPubKey(pool,
-                             (const unsigned char **)&data, data_len,
-                             &pubkey->key.rsa,
-                             hashBuf);
+    {
+        /* psRsaParseAsnPubKey() advances the pointer it is given, and
+           'data' itself may have to be freed below. */
+        const unsigned char *rsaData = data;
+
+        rc = psRsaParseAsnPubKey(pool,
+                                 &rsaData, data_len,
+                                 &pubkey->key.rsa,
+                                 hashBuf);
+    }
     if (rc == PS_SUCCESS)
     {
         pubkey->type = PS_RSA;
